@@ -229,16 +229,27 @@ def _v_double_space(n):
     return n.replace(" ", "  ") if " " in n else n + "  x"
 
 
-VARIANTS_IDENT = (_v_swapcase, _v_upper, _v_lower, _v_underscore)
+def _v_zero_pad(n):
+    """cpu1 -> cpu01: equal under 'natural' (numeric-run) ordering, different as strings"""
+    import re as _re
+    return _re.sub(r"(\d+)", lambda m: "0" + m.group(1), n, count=1) if _re.search(r"\d", n) else n + "01"
+
+
+def _v_digit_suffix(n):
+    return n + "1"
+
+
+VARIANTS_IDENT = (_v_swapcase, _v_upper, _v_lower, _v_underscore, _v_zero_pad, _v_digit_suffix)
 VARIANTS_TEXT = VARIANTS_IDENT + (_v_inner_space, _v_no_space, _v_trailing_space, _v_double_space)
-VARIANTS_AFM = (_v_keep_first_swap_rest,)
+VARIANTS_AFM = (_v_keep_first_swap_rest, _v_zero_pad, _v_digit_suffix)
 
 
 class Profile:
     def __init__(self, names, single=("mandatory", "optional"), group=("alternative", "or"),
                  layout="free", ftypes=("BOOLEAN",), fcards=False, abstract=True, attrs=None,
                  ctc_ops=logic.LOGICAL, ctc_depth=3, ctc_max=4, ctc_names=None, ctc_leaf=None,
-                 group_plus_mandatory=False, unique_key=None, ctc_expr=None, variants=VARIANTS_IDENT, sanitize=None):
+                 group_plus_mandatory=False, unique_key=None, ctc_expr=None, variants=VARIANTS_IDENT, sanitize=None,
+                 wide=False, simple_ops="auto"):
         self.names = names
         self.single = single
         self.group = group
@@ -257,6 +268,10 @@ class Profile:
         self.ctc_expr = ctc_expr      # callable(draw, names, model_feats) -> expr, overrides default
         self.variants = variants      # functions name -> near-duplicate name inside the profile's name domain
         self.sanitize = sanitize      # maps a variant back into the name domain (e.g. away from keywords)
+        self.wide = wide              # now and then one wide group (10-24 leaves, multi-digit bounds)
+        # operators usable for 'structured' constraint lists (simple forms between related features); "auto" =
+        # ctc_ops when the profile has no ctc_expr of its own, else none
+        self.simple_ops = (ctc_ops if ctc_expr is None else ()) if simple_ops == "auto" else tuple(simple_ops)
 
 
 def exprs(names, ops=logic.LOGICAL, max_depth=3, leaf=None):
@@ -380,7 +395,7 @@ def _blocks(draw, k, allow_groups=True):
 
 
 @st.composite
-def model_specs(draw, profile: Profile, min_feats=1, max_feats=12, with_ctcs=True):
+def model_specs(draw, profile: Profile, min_feats=1, max_feats=12, with_ctcs=True, allow_wide=True):
     n = draw(st.integers(min_feats, max_feats))
     names = draw(distinct(profile.names, n, profile.unique_key))
     if n >= 2 and profile.variants and draw(st.integers(0, 2)) == 0:
@@ -448,8 +463,13 @@ def model_specs(draw, profile: Profile, min_feats=1, max_feats=12, with_ctcs=Tru
                     lo, hi = SINGLE_KINDS[kind](draw, 1)
                     rels.append({"min": lo, "max": hi, "children": [feats[c]]})
         feats[i]["rels"] = rels
+    if allow_wide and profile.wide and profile.group and draw(st.integers(0, 11)) == 0:
+        _add_wide_group(draw, profile, feats, names)
     ctcs = []
-    if with_ctcs and profile.ctc_max:
+    if with_ctcs and profile.ctc_max and profile.simple_ops and n >= 2 and draw(st.integers(0, 4)) == 0:
+        for j, e in enumerate(_structured_ctcs(draw, feats[0], profile.simple_ops, profile.ctc_max)):
+            ctcs.append({"name": profile.ctc_names(draw, j) if profile.ctc_names else f"C{j}", "ast": e})
+    elif with_ctcs and profile.ctc_max:
         m = draw(st.integers(0, profile.ctc_max))
         for j in range(m):
             if profile.ctc_expr is not None:
@@ -459,6 +479,98 @@ def model_specs(draw, profile: Profile, min_feats=1, max_feats=12, with_ctcs=Tru
             cname = profile.ctc_names(draw, j) if profile.ctc_names else f"C{j}"
             ctcs.append({"name": cname, "ast": e})
     return {"root": feats[0], "ctcs": ctcs}
+
+
+def _add_wide_group(draw, profile, feats, names):
+    """One group of 10-24 leaves under some feature, with bounds where numeric and textual order disagree
+    ([2..10], [9..11], ...) about half of the time: multi-digit cardinalities only exist in wide groups."""
+    hosts = [i for i in feats if profile.layout == "free" or not feats[i]["rels"]]
+    host = feats[draw(st.sampled_from(hosts))]
+    k = draw(st.integers(10, 24))
+    taken = set(names)
+    kids = []
+    for i in range(k):
+        nm = f"Wide{i}"
+        while nm in taken:
+            nm += "x"
+        taken.add(nm)
+        names.append(nm)
+        kids.append({"name": nm, "abstract": False, "ftype": profile.ftypes[0], "fcard": None, "attrs": [], "rels": []})
+    if "card" in profile.group:
+        if draw(st.booleans()):
+            lo = draw(st.integers(2, 9))
+            hi = draw(st.integers(10, k))
+        else:
+            lo = draw(st.integers(0, k))
+            hi = draw(st.integers(lo, k))
+    else:
+        lo, hi = GROUP_KINDS[draw(st.sampled_from(profile.group))](draw, k)
+    host["rels"].append({"min": lo, "max": hi, "children": kids})
+
+
+def _structured_ctcs(draw, root, ops, ctc_max):
+    """A list of simple-form constraints between features that are *related in the tree* (members of one relation,
+    siblings in different relations, parent/child, ancestor/descendant) or arbitrary - all of one form or mixed.
+    This is what the constraint section of a hand-written model looks like, and where code that special-cases
+    requires/excludes or consults the tree while translating constraints takes its short cuts."""
+    ops = set(ops)
+    members, parent_of = [], {}
+    stack = [root]
+    all_names = []
+    while stack:
+        f = stack.pop()
+        all_names.append(f["name"])
+        for ri, r in enumerate(f["rels"]):
+            for c in r["children"]:
+                members.append((f["name"], ri, c["name"]))
+                parent_of[c["name"]] = f["name"]
+                stack.append(c)
+
+    def T(x):
+        return ["T", x]
+    forms = []
+    if "IMPLIES" in ops:
+        forms.append(lambda a, b: ["IMPLIES", T(a), T(b)])
+        if "NOT" in ops:
+            forms.append(lambda a, b: ["IMPLIES", T(a), ["NOT", T(b)]])
+    if "REQUIRES" in ops:
+        forms.append(lambda a, b: ["REQUIRES", T(a), T(b)])
+    if "EXCLUDES" in ops:
+        forms.append(lambda a, b: ["EXCLUDES", T(a), T(b)])
+        forms.append(lambda a, b: ["EXCLUDES", T(a), T(b)])
+    if "OR" in ops and "NOT" in ops:
+        forms += [lambda a, b: ["OR", ["NOT", T(a)], T(b)], lambda a, b: ["OR", T(b), ["NOT", T(a)]],
+                  lambda a, b: ["OR", ["NOT", T(a)], ["NOT", T(b)]]]
+    if "EQUIVALENCE" in ops:
+        forms.append(lambda a, b: ["EQUIVALENCE", T(a), T(b)])
+    if "XOR" in ops:
+        forms.append(lambda a, b: ["XOR", T(a), T(b)])
+    if "AND" in ops and "NOT" in ops:
+        forms.append(lambda a, b: ["NOT", ["AND", T(a), T(b)]])
+    if not forms:
+        return []
+    homogeneous = draw(st.sampled_from(forms)) if draw(st.booleans()) else None
+
+    def pair():
+        how = draw(st.sampled_from(["same-relation", "other-relation", "parent-child", "ancestor", "any", "any"]))
+        if how in ("same-relation", "other-relation") and members:
+            p, ri, a = draw(st.sampled_from(members))
+            same = [c for q, rj, c in members if q == p and (rj == ri) == (how == "same-relation") and c != a]
+            if same:
+                return a, draw(st.sampled_from(same))
+        if how in ("parent-child", "ancestor") and members:
+            _, _, c = draw(st.sampled_from(members))
+            up = parent_of[c]
+            while how == "ancestor" and up in parent_of and draw(st.booleans()):
+                up = parent_of[up]
+            return (c, up) if draw(st.booleans()) else (up, c)
+        return draw(st.sampled_from(all_names)), draw(st.sampled_from(all_names))
+
+    out = []
+    for _ in range(draw(st.integers(1, max(1, ctc_max)))):
+        a, b = pair()
+        out.append((homogeneous or draw(st.sampled_from(forms)))(a, b))
+    return out
 
 
 # ------------------------------------------------------------------ profiles
@@ -473,7 +585,7 @@ BOOLEAN_STAR = Profile(ident_or_dict_names(), single=("mandatory", "optional", "
                        group=("alternative", "or", "mutex", "card", "star"), layout="free", ctc_depth=3, ctc_max=3)
 
 ANY = Profile(ident_names(), single=("mandatory", "optional", "card1"),
-              group=("alternative", "or", "mutex", "card"), layout="free",
+              group=("alternative", "or", "mutex", "card"), layout="free", wide=True,
               ftypes=("BOOLEAN", "BOOLEAN", "INTEGER", "REAL", "STRING"), fcards=True)
 
 
@@ -493,8 +605,15 @@ CONFUSABLE_STRINGS = ["true", "false", "True", "False", "null", "None", "0", "1"
                       "[]", "{}", "[1]", "\"q\"", "abstract", "value", "name"]
 
 
+def any_finite_floats():
+    """Every finite double (JSON carries them all: exponents, subnormals, -0.0, 17 significant digits)."""
+    return st.one_of(st.floats(allow_nan=False, allow_infinity=False),
+                     st.sampled_from([1e300, 1e-300, 5e-324, -0.0, 0.1 + 0.2, 1e16, 1.7976931348623157e308, 1e22, 1e23])).map(
+        lambda x: {"$float": repr(x)})
+
+
 def json_scalars(strs):
-    return st.one_of(st.sampled_from(CONFUSABLE_STRINGS), st.none(), st.booleans(), st.integers(-10**12, 10**12),
+    return st.one_of(any_finite_floats(), st.sampled_from(CONFUSABLE_STRINGS), st.none(), st.booleans(), st.integers(-10**12, 10**12),
                      st.sampled_from([0, 1, -1, 2**63, -2**70]), plain_floats(), strs,
                      st.sampled_from([0, False, "", {"$float": "0.0"}]))
 
@@ -520,7 +639,7 @@ def _ctc_names_unicode(draw, j):
 
 JSON = Profile(any_unicode_names(), single=("mandatory", "optional"),
                group=("alternative", "or", "mutex", "card", "card", "star"), layout="free", attrs=_json_attrs,
-               ctc_depth=4, ctc_max=4, ctc_names=_ctc_names_unicode, variants=VARIANTS_TEXT)
+               ctc_depth=4, ctc_max=4, ctc_names=_ctc_names_unicode, variants=VARIANTS_TEXT, wide=True)
 
 
 def _ctc_names_distinct(draw, j):
@@ -529,7 +648,7 @@ def _ctc_names_distinct(draw, j):
 
 GLENCOE = Profile(any_unicode_names(), single=("mandatory", "optional"),
                   group=("alternative", "or", "mutex", "card"), layout="one_group", group_plus_mandatory=True,
-                  abstract=False, ctc_depth=3, ctc_max=4, ctc_names=_ctc_names_distinct, variants=VARIANTS_TEXT)
+                  abstract=False, ctc_depth=3, ctc_max=4, ctc_names=_ctc_names_distinct, variants=VARIANTS_TEXT, wide=True)
 
 
 def nary_chain(draw, names, ops=("AND", "OR"), max_operands=33):
@@ -557,7 +676,8 @@ def _fide_ctc(draw, names, feats):
 
 
 FEATUREIDE = Profile(xml_names(), single=("mandatory", "optional"), group=("alternative", "or"),
-                     layout="one_group", abstract=True, ctc_max=6, ctc_expr=_fide_ctc, variants=VARIANTS_TEXT)
+                     layout="one_group", abstract=True, ctc_max=6, ctc_expr=_fide_ctc, variants=VARIANTS_TEXT, wide=True,
+                     simple_ops=("NOT", "AND", "OR", "IMPLIES", "EQUIVALENCE", "REQUIRES", "EXCLUDES"))
 
 
 # ------------------------------------------------------------------ AFM
@@ -596,7 +716,7 @@ def _afm_attrs(draw, fname):
 
 AFM_OPS = ("NOT", "AND", "OR", "IMPLIES", "EQUIVALENCE", "REQUIRES", "EXCLUDES")
 AFM = Profile(afm_names(), single=("mandatory", "optional"), group=("card", "card", "alternative", "or", "mutex"),
-              layout="free", abstract=False, attrs=_afm_attrs, ctc_ops=AFM_OPS, ctc_depth=5, ctc_max=4, variants=VARIANTS_AFM,
+              layout="free", abstract=False, attrs=_afm_attrs, ctc_ops=AFM_OPS, ctc_depth=5, ctc_max=4, variants=VARIANTS_AFM, wide=True,
               sanitize=lambda s: s + "x" if s in AFM_KEYWORDS else s)
 
 
@@ -660,7 +780,8 @@ def _uvl_ctc(draw, names, feats):
 
     op = draw(st.sampled_from(logic.COMPARISON))
     if op in ("EQUALS", "NOT_EQUALS") and draw(st.integers(0, 3)) == 0:
-        lit = draw(st.text(alphabet=string.ascii_letters + string.digits + " _-+", min_size=1, max_size=5))
+        lit = draw(st.one_of(st.text(alphabet=string.ascii_letters + string.digits + " _-+", min_size=1, max_size=5),
+                             uvl_strings()))
         cmp_ = [op, ref(), ["S", "'" + lit + "'"]]
     else:
         cmp_ = [op, arith(2), arith(2)]
@@ -675,7 +796,7 @@ def _uvl_ctc(draw, names, feats):
 UVL = Profile(uvl_names(), single=("mandatory", "optional", "card1", "star1"),
               group=("alternative", "or", "mutex", "card", "star"), layout="free",
               ftypes=("BOOLEAN", "BOOLEAN", "BOOLEAN", "INTEGER", "REAL", "STRING"), fcards=True, abstract=True,
-              attrs=_uvl_attrs, ctc_max=4, ctc_expr=_uvl_ctc, variants=VARIANTS_TEXT)
+              attrs=_uvl_attrs, ctc_max=4, ctc_expr=_uvl_ctc, variants=VARIANTS_TEXT, wide=True, simple_ops=UVL_LOGICAL)
 
 
 # ------------------------------------------------------------------ FaMa XML (any cardinalities, requires/excludes only)
@@ -685,7 +806,8 @@ def _fama_ctc(draw, names, feats):
 
 
 FAMA = Profile(xml_names(), single=("mandatory", "optional", "card1"), group=("alternative", "or", "mutex", "card"),
-               layout="free", abstract=False, ctc_max=4, ctc_expr=_fama_ctc, ctc_names=lambda draw, j: f"CTC-{j}", variants=VARIANTS_TEXT)
+               layout="free", abstract=False, ctc_max=4, ctc_expr=_fama_ctc, ctc_names=lambda draw, j: f"CTC-{j}", variants=VARIANTS_TEXT,
+               wide=True, simple_ops=("REQUIRES", "EXCLUDES"))
 
 
 def _glencoe_ctc(draw, names, feats):
@@ -696,7 +818,8 @@ def _glencoe_ctc(draw, names, feats):
 
 GLENCOE_3P = Profile(any_unicode_names(), single=("mandatory", "optional"), group=("alternative", "or", "mutex", "card"),
                      layout="one_group", group_plus_mandatory=True, abstract=False, ctc_max=4,
-                     ctc_expr=_glencoe_ctc, ctc_names=_ctc_names_distinct, variants=VARIANTS_TEXT)
+                     ctc_expr=_glencoe_ctc, ctc_names=_ctc_names_distinct, variants=VARIANTS_TEXT, wide=True,
+                     simple_ops=logic.LOGICAL)
 
 
 # ------------------------------------------------------------------ Clafer
